@@ -233,6 +233,8 @@ class Spec:
     when it arrives, anything else -> 'Unknown task.' and the requesting client is dropped (its tasks forgotten);
     ERROR/LOG for a known compilation -> forwarded to the submitting connection."""
 
+    dc = False          # True: a cancelled task is forgotten at once (fixes/C13-D15.patch); late ERROR/LOG dropped
+
     def __init__(self):
         self.task = {}      # id -> dict(owner, mb, st, val, waiting)
         self.by_mb = {}
@@ -292,7 +294,11 @@ class Spec:
         if k == K_CANCEL:
             c, t = ev[1], ev[2]
             if self.own_open(c, t):
-                self.task[t]['st'] = 'cancelled'
+                if Spec.dc:
+                    del self.by_mb[self.task[t]['mb']]
+                    del self.task[t]
+                else:
+                    self.task[t]['st'] = 'cancelled'
             return [('cancel', c)]
         if k == K_RESULT:
             t = self.by_mb.get(ev[1])
@@ -353,6 +359,9 @@ def parse_v(s):
     return go()[0]
 
 
+MODES = {'current': 0, 'fixed': 1, 'fixed-drop': 2}
+
+
 def model_runs(hists, fx):
     lines = [f'run {fx} {fmt_hist(h)}' for h in hists]
     res = []
@@ -370,7 +379,7 @@ def model_runs(hists, fx):
 
 
 def model_specs(hists):
-    lines = [f'spec {fmt_hist(h)}' for h in hists]
+    lines = [f'spec {int(Spec.dc)} {fmt_hist(h)}' for h in hists]
     res = []
     for ln in vf.run_model('server', lines):
         v = parse_v(ln)
@@ -445,7 +454,7 @@ def find_violations(hist, impl_obs, impl_exc, model_obs, mode, tag):
 
 def shrink(v, mode, tag, budget=250):
     """greedy one-event deletion keeping the same signature"""
-    fx = 1 if mode == 'fixed' else 0
+    fx = MODES[mode]
     cur = v
     changed = True
     while changed and budget > 0:
@@ -1006,6 +1015,7 @@ WITNESSES = {
     'foreign-cancel': [[0, 0], [0, 1], [2, 0, 0], [5, 1, 0], [4, 0, 0]],
     'foreign-status': [[0, 0], [0, 1], [2, 0, 0], [4, 1, 0]],
     'other-client-survives': [[0, 0], [0, 1], [2, 1, 5], [2, 0, 0], [6, 1, 3], [3, 0, 0], [4, 0, 0], [6, 0, 4], [3, 1, 5]],
+    'error-after-cancel': [[0, 0], [2, 0, 0], [2, 0, 1], [5, 0, 0], [7, 0, 5], [8, 0, 1], [7, 1, 2], [1, 0]],
 }
 
 
@@ -1199,17 +1209,26 @@ def run_loop_witness(ctx, mode):
 
 
 def detect_mode(ctx):
+    """which model does the implementation correspond to?  The witnesses are compared with all three; ties go to
+    the most repaired variant.  Also selects the matching variant of the specification (Spec.dc)."""
     hs = list(WITNESSES.values())
     impl = [run_impl(h) for h in hs]
-    cur, fix = model_runs(hs, 0), model_runs(hs, 1)
-    a_cur = sum(norm(i[0]) == norm(m) for i, m in zip(impl, cur))
-    a_fix = sum(norm(i[0]) == norm(m) for i, m in zip(impl, fix))
-    ctx.cov['witness_agreement'] = dict(current=a_cur, fixed=a_fix, of=len(hs))
-    return 'current' if a_cur > a_fix else 'fixed'
+    agree = {}
+    for mode, fx in MODES.items():
+        ms = model_runs(hs, fx)
+        agree[mode] = sum(norm(i[0]) == norm(m) for i, m in zip(impl, ms))
+    ctx.cov['witness_agreement'] = dict(agree, of=len(hs))
+    mode = max(['current', 'fixed', 'fixed-drop'], key=lambda m: (agree[m], MODES[m]))
+    # late ERROR for a cancelled task: which variant of the specification applies is read off the implementation
+    probe = run_impl(WITNESSES['error-after-cancel'])[0]
+    Spec.dc = (probe[4][0] == [] and probe[4][1] is not None)
+    ctx.cov['spec_variant'] = 'cancelled task forgotten (late ERROR/LOG dropped)' if Spec.dc else \
+        'cancelled task remembered until disconnect (late ERROR/LOG forwarded)'
+    return mode
 
 
 def run_batch(ctx, hists, mode, tag, oracle_expected_clean=None):
-    fx = 1 if mode == 'fixed' else 0
+    fx = MODES[mode]
     models = model_runs(hists, fx)
     nclean = 0
     for h, mo in zip(hists, models):
